@@ -57,7 +57,9 @@ def zero : TC → JV
 /-- what `encoding/json` leaves in a field: absent key and JSON null keep the zero value -/
 def decode (tc : TC) : Option JV → JV
   | none => zero tc
-  | some .null => zero tc
+  | some .null => (match tc with
+                   | .nmap => .obj []   -- named map types: their UnmarshalJSON turns null into an empty map
+                   | _ => zero tc)
   | some v => v
 
 /-- the guard of one `m["k"] = x` statement, evaluated on the field's value -/
@@ -118,6 +120,8 @@ def compat : TC → Guard → Bool
   | .map, .lenNe0 => true
   | .map, .neNil => true
   | .map, .always => true
+  | .nmap, .lenNe0 => true
+  | .nmap, .neNil => true
   | .iface, .neNil => true
   | .value, .always => true
   | .addProps, .addProps => true
@@ -191,6 +195,7 @@ def isDefault (tc : TC) (v : JV) : Bool :=
    | .uint => v.isZeroNum
    | .slice => v.isEmptyColl
    | .map => v.isEmptyColl
+   | .nmap => v.isEmptyColl
    | _ => false)
 
 
@@ -243,62 +248,92 @@ def dateTrimHit (d : Desc) (o : Obj) : Bool :=
    | some (.str "date"), some (.str e) => e.endsWith "T00:00:00Z"
    | _, _ => false)
 
+/-- why the deep model has no value: the real code panics (nil dereference in a value-receiver
+    `MarshalYAML`), or the fuel of the model ran out (never with the fuel the driver passes) -/
+inductive Err | panic | fuel
+  deriving DecidableEq, Repr
+
+abbrev Res := Except Err
+
 /-- `MarshalYAML` where the value of every written field is marshalled by its own marshaller `f` -/
-def marshalDeep (f : Shape → JV → Option JV) (d : Desc) (r : Rec) : Option Obj :=
-  if d.refEarly && !(r.fld "Ref").isEmptyStr then some [("$ref", r.fld "Ref")]
+def marshalDeep (f : Shape → JV → Res JV) (d : Desc) (r : Rec) : Res Obj :=
+  if d.refEarly && !(r.fld "Ref").isEmptyStr then pure [("$ref", r.fld "Ref")]
   else
     ((d.marsh.filter (fun m => guard m.guard (r.fld m.goName))).mapM
       (fun (m : MField) => (f (shapeOfGo d m.goName) (r.fld m.goName)).map (fun v' => (m.key, v')))).map
       (fun fs => fs ++ (if d.extCopy then r.ext else []))
 
-/-- deep round trip with fuel (`none` = out of fuel; the driver passes more than the depth needs). -/
-def rt (T : List Desc) : Nat → Shape → JV → Option JV
-  | 0, _, _ => none
+/-- deep round trip with fuel (`.error .fuel` = out of fuel; the driver passes more than the depth needs). -/
+def rt (T : List Desc) : Nat → Shape → JV → Res JV
+  | 0, _, _ => .error .fuel
   | n + 1, s, v =>
+    -- what a pointer to the zero value of the shape marshals to (null entries of named maps and of
+    -- map-like containers are decoded into such pointers)
+    let zeroEntry : Shape → Res JV := fun s =>
+      match s with
+      | .ref w => (match findDesc T w with
+                   | some d => if d.valueNilSafe then pure .null else .error .panic
+                   | none => pure .null)
+      | .kind k => rt T n (.kind k) (.obj [])
+      | .strLeaf => pure (.str "")
+      | _ => pure .null
+    let entry : Shape → JV → Res JV := fun s v =>
+      match v with
+      | .null => zeroEntry s
+      | v => rt T n s v
     match s, v with
-    | .leaf, v => some v
-    | .unknown _, v => some v
-    | .types, v => some (rtTypes v)
-    | .addProps, .obj [] => some (.obj [])
+    | .leaf, v => pure v
+    | .strLeaf, v => pure v
+    | .unknown _, v => pure v
+    | .types, v => pure (rtTypes v)
+    | .addProps, .obj [] => pure (.obj [])
     | .addProps, .obj kvs => rt T n (.ref "openapi3.SchemaRef") (.obj kvs)
-    | .addProps, v => some v
-    | .list s, .arr xs => (xs.mapM (rt T n s)).map .arr
-    | .list _, v => some v
-    | .map s, .obj kvs => (kvs.mapM (fun kv => (rt T n s kv.2).map (fun v' => (kv.1, v')))).map .obj
-    | .map _, v => some v
-    | .pmap s, .obj kvs => (kvs.mapM (fun kv => (rt T n s kv.2).map (fun v' => (kv.1, v')))).map .obj
-    | .pmap _, v => some v
+    | .addProps, v => pure v
+    | .list s, .arr xs =>
+      -- a null element of a slice of named maps is decoded by the map's UnmarshalJSON into an empty map
+      (xs.mapM (fun (x : JV) => match s, x with
+                               | .pmap _, .null => pure (JV.obj [])
+                               | .strLeaf, .null => pure (JV.str "")
+                               | s, x => rt T n s x)).map .arr
+    | .list _, v => pure v
+    | .map s, .obj kvs =>
+      (kvs.mapM (fun (kv : String × JV) => (match s, kv.2 with
+                                            | .strLeaf, .null => pure (JV.str "")
+                                            | s, x => rt T n s x).map (fun v' => (kv.1, v')))).map .obj
+    | .map _, v => pure v
+    | .pmap s, .obj kvs =>
+      (kvs.mapM (fun (kv : String × JV) => (entry s kv.2).map (fun v' => (kv.1, v')))).map .obj
+    | .pmap _, v => pure v
     | .ref w, v =>
       match findDesc T w with
-      | none => some v
+      | none => pure v
       | some d =>
         match v with
         | .obj kvs =>
           match refString kvs with
-          | some r => some (.obj [("$ref", .str r)])
+          | some r => pure (.obj [("$ref", .str r)])
           | none => rt T n d.valueShape v
         | v => rt T n d.valueShape v
     | .maplike w, .obj kvs =>
       match findDesc T w with
-      | none => some (.obj kvs)
+      | none => pure (.obj kvs)
       | some d =>
         let entryShape := match d.valueShape with | .map s => s | s => s
-        ((kvs.filter (fun kv => kv.1 != "__origin__")).mapM (fun kv =>
-          if isExtKey kv.1 then some kv
-          else (rt T n entryShape (match kv.2 with | .null => .obj [] | v => v)).map (fun v' => (kv.1, v')))).map .obj
-    | .maplike _, v => some v
+        ((kvs.filter (fun kv => kv.1 != "__origin__")).mapM (fun (kv : String × JV) =>
+          if isExtKey kv.1 then pure kv
+          else (entry entryShape kv.2).map (fun v' => (kv.1, v')))).map .obj
+    | .maplike _, v => pure v
     | .kind k, v =>
       match findDesc T k with
-      | none => some v
+      | none => pure v
       | some d =>
         match d.template with
         | .alias => rt T n d.valueShape v
         | .struct =>
           match v with
-          | .obj kvs =>
-            (marshalDeep (rt T n) d (unmarshal d (applyPost d kvs))).map .obj
-          | v => some v
-        | _ => some v
+          | .obj kvs => (marshalDeep (rt T n) d (unmarshal d (applyPost d kvs))).map .obj
+          | v => pure v
+        | _ => pure v
 
 /-! ### deep normal form (spec side): follows the shape grammar, not the marshallers -/
 
@@ -312,6 +347,8 @@ def normalB (T : List Desc) : Nat → Shape → JV → Bool
   | n + 1, s, v =>
     match s, v with
     | .leaf, _ => true
+    | .strLeaf, .str _ => true
+    | .strLeaf, _ => false
     | .unknown _, _ => false
     | .types, .str _ => true
     | .types, .arr (x :: y :: r) => allStr (x :: y :: r)
